@@ -529,6 +529,6 @@ def run(rep, program: Program, tier: str) -> None:
         "who-may-write analysis for step_size/metric; dominance of the empty-stage guard."
     )
     rep.assumptions = ["stager constructor arguments are non-negative integers and slow_window_multiplier >= 0", "arithmetic of the adapters themselves is C17"]
-    rule_r1(rep, program)
-    rule_r2(rep, program)
-    rule_r3(rep, program)
+    rep.isolate(rule_r1, rep, program)
+    rep.isolate(rule_r2, rep, program)
+    rep.isolate(rule_r3, rep, program)
